@@ -310,7 +310,7 @@ def stepCore (cx : Ctx) (w : World) (ws : List String) : StepOut :=
       if r == q then badOp w else
       elemOp r (Model.extendFromSlice (getI r) (getI q)) (Spec.extendFromSlice (getS r) (getS q)) false []
     | _, _ => badOp w
-  | ["to_vec", r, q] =>
+  | ["to_vec", r, q] | ["to_vec_sm", r, q] | ["to_vec_ts", r, q] | ["to_vec_tsm", r, q] =>
     match parseReg r, parseReg q with
     | some r, some q =>
       let oi := Model.toVec (getI r)
@@ -958,7 +958,7 @@ def capUpdate (cx : Ctx) (w w' : World) (ws : List String) (ok : Bool) : List Ca
   | "split_off" =>
     let cs := keep (reg 1)
     set cs (reg 3) { (Cap.St.new cx.kinds (lenOf w' (reg 3))) with len := lenOf w' (reg 3) }
-  | "to_vec" => set w.caps (reg 2) { (Cap.St.new cx.kinds (lenOf w' (reg 2))) with len := lenOf w' (reg 2) }
+  | "to_vec" | "to_vec_sm" | "to_vec_ts" | "to_vec_tsm" => set w.caps (reg 2) { (Cap.St.new cx.kinds (lenOf w' (reg 2))) with len := lenOf w' (reg 2) }
   | "roundtrip" => if ws.getD 2 "" == "vec" then set w.caps (reg 1) (get (reg 1)).shrink else w.caps
   | "reserve" => set w.caps (reg 1) ((get (reg 1)).reserve (num 2))
   | "reserve_exact" => set w.caps (reg 1) ((get (reg 1)).reserveExact (num 2))
